@@ -289,10 +289,11 @@ def supercells(draw, maxsize):
         cands = [M for M in SKEW if abs(int(round(np.linalg.det(np.array(M))))) <= maxsize]
         if cands:
             return draw(st.sampled_from(cands))
-    d0 = draw(st.integers(1, maxsize))
-    d1 = draw(st.integers(1, max(1, maxsize // d0)))
-    d2 = draw(st.integers(1, max(1, maxsize // (d0 * d1))))
-    perm = draw(st.permutations([d0, d1, d2]))
+    triples = [(a, b_, c) for a in range(1, maxsize + 1) for b_ in range(a, maxsize // a + 1) for c in range(b_, maxsize // (a * b_) + 1)]
+    compact = [t for t in triples if t[0] >= 2]
+    if compact and draw(st.booleans()):
+        triples = compact  # half of the draws avoid a period of a single cell, which mostly gives self-aliased clusters
+    perm = draw(st.permutations(list(draw(st.sampled_from(triples)))))
     M = np.diag(perm)
     if draw(st.integers(0, 2)) == 0:
         M[0, 1] = draw(st.integers(-1, 1))
